@@ -51,7 +51,7 @@ ASSUMPTIONS = [
     'the simulated devices are put back into their initial state before every '
     'run (what a light replies to `get` is environment)',
 ]
-PROFILE = gen.profile(len=(3, 20), depth=3)
+PROFILE = gen.profile(len=(3, 20), depth=3, w={'time_at': 2.5})
 
 
 def compile_result(parser, text):
